@@ -62,6 +62,111 @@ func jsonHelperFn(c *core.Ctx) (*ssa.Function, *ssa.Call) {
 	return helper, nil
 }
 
+// helperRole is one configuration input of the JSON helper: a parameter of it,
+// or a variable captured by it when the helper is the closure a constructor
+// returns (jsonDetector(query, mask)).
+type helperRole struct {
+	f     *ssa.Function
+	param int // index in f.Params, or -1
+	free  int // index in f.FreeVars, or -1
+}
+
+func (r helperRole) valid() bool { return r.param >= 0 || r.free >= 0 }
+
+// is: v is the role's value inside the helper (the parameter, or a load of the captured variable).
+func (r helperRole) is(v ssa.Value) bool {
+	if r.param >= 0 {
+		return v == ssa.Value(r.f.Params[r.param])
+	}
+	if u, ok := v.(*ssa.UnOp); ok && u.Op == token.MUL && r.free >= 0 {
+		return u.X == ssa.Value(r.f.FreeVars[r.free]) && writeOnceCapture(r.f, r.free)
+	}
+	return false
+}
+
+// writeOnceCapture: the captured cell is never stored to inside the closure.
+func writeOnceCapture(f *ssa.Function, i int) bool {
+	for _, ref := range *f.FreeVars[i].Referrers() {
+		if st, ok := ref.(*ssa.Store); ok && st.Addr == ssa.Value(f.FreeVars[i]) {
+			return false
+		}
+		if _, ok := ref.(*ssa.UnOp); !ok {
+			if _, ok := ref.(*ssa.DebugRef); !ok {
+				return false
+			}
+		}
+	}
+	return true
+}
+
+// helperRoles finds the query (string) and mask (int) inputs of the JSON helper.
+func helperRoles(f *ssa.Function) (q, mask helperRole) {
+	q, mask = helperRole{f, -1, -1}, helperRole{f, -1, -1}
+	for i, p := range f.Params {
+		if b, ok := p.Type().Underlying().(*types.Basic); ok && b.Kind() == types.Int {
+			mask.param = i
+		}
+		if core.IsString(p.Type()) {
+			q.param = i
+		}
+	}
+	for i, fv := range f.FreeVars {
+		pt, ok := fv.Type().Underlying().(*types.Pointer)
+		if !ok {
+			continue
+		}
+		if b, ok := pt.Elem().Underlying().(*types.Basic); ok && b.Kind() == types.Int && mask.param < 0 {
+			mask.free = i
+		}
+		if core.IsString(pt.Elem()) && q.param < 0 {
+			q.free = i
+		}
+	}
+	return
+}
+
+// constOf: the constant the role has for the detector of node n: the argument
+// of the detector's call of the helper, or, when the detector is the helper
+// closure itself, the constructor argument the captured variable was bound to.
+// fwd: (header, limit) reach the helper unchanged. pos is the binding site.
+func (r helperRole) constOf(n *tree.Node) (v interface{}, fwd bool, pos token.Pos, ok bool) {
+	f := r.f
+	if n.DetFn == f {
+		if r.free < 0 {
+			return nil, false, token.NoPos, false
+		}
+		for _, ref := range *f.FreeVars[r.free].Referrers() {
+			if u, isLd := ref.(*ssa.UnOp); isLd && r.is(u) {
+				pos = n.Pos
+				if n.DetCtor != nil {
+					pos = n.DetCtor.Pos()
+				}
+				x, okF := detEnv(n).fold(u, 0)
+				return x, true, pos, okF
+			}
+		}
+		return nil, false, token.NoPos, false
+	}
+	if r.param < 0 {
+		return nil, false, token.NoPos, false
+	}
+	for _, ci := range core.Calls(n.DetFn) {
+		if ci.Common().StaticCallee() != f {
+			continue
+		}
+		args := ci.Common().Args
+		fwd = len(n.DetFn.Params) >= 2 && args[0] == ssa.Value(n.DetFn.Params[0]) && args[1] == ssa.Value(n.DetFn.Params[1])
+		if k, isK := core.ConstInt(args[r.param]); isK {
+			return k, fwd, ci.Pos(), true
+		}
+		if k, isK := core.ConstString(args[r.param]); isK {
+			return k, fwd, ci.Pos(), true
+		}
+		return nil, fwd, ci.Pos(), false
+	}
+	return nil, false, token.NoPos, false
+}
+
 // dependsOn: v is computed from Extract #idx of call.
 func dependsOn(v ssa.Value, call *ssa.Call, idx int) bool {
 	seen := map[ssa.Value]bool{}
@@ -248,20 +353,32 @@ var ruleTokenGate = &core.Rule{ID: "R09.4", Min: 5,
 		// scanner assigns them on '{' and '[': tabulate the dispatch of the guard function
 		disp := tabulateDispatch(c, m, m.guardFn)
 		s.Check(disp['['].token == tArr && disp['{'].token == tObj, "token codes of '[' and '{'", c.Pos(m.guardFn.Pos()), fmt.Sprintf("'['->%d '{'->%d", tArr, tObj), fmt.Sprintf("the scanner records token %d for '[' and %d for '{' (expected %d, %d)", disp['['].token, disp['{'].token, tArr, tObj))
-		// mask parameter & query parameter of the helper
-		maskIdx, qIdx := -1, -1
-		for i, p := range f.Params {
-			if b, ok := p.Type().Underlying().(*types.Basic); ok && b.Kind() == types.Int {
-				maskIdx = i
-			}
-			if core.IsString(p.Type()) {
-				qIdx = i
-			}
+		// mask and query inputs of the helper (parameters, or variables captured from its constructor)
+		qR, maskR := helperRoles(f)
+		if !qR.valid() {
+			core.Bail("JSON helper has no query input")
 		}
-		if maskIdx < 0 || qIdx < 0 {
-			core.Bail("JSON helper has no (query, mask) parameters")
+		if !maskR.valid() {
+			// no mask input at all: either the first token is masked with something else (not modelled) or not masked
+			masked := false
+			for _, b := range f.Blocks {
+				for _, in := range b.Instrs {
+					if and, ok := in.(*ssa.BinOp); ok && and.Op == token.AND {
+						for _, o := range []ssa.Value{and.X, and.Y} {
+							if ex, ok := o.(*ssa.Extract); ok && ex.Tuple == ssa.Value(pcall) && ex.Index == 2 {
+								masked = true
+							}
+						}
+					}
+				}
+			}
+			if masked {
+				core.Bail("JSON helper has no mask input; its first-token test is not modelled")
+			}
+			s.Bad("helper rejects when the first token misses the mask", c.Pos(f.Pos()), "the helper has no token mask and never masks the scanner's first token: a bare string or number would be reported as JSON")
+			return
 		}
-		s.Check(pcall.Call.Args[0] == ssa.Value(f.Params[qIdx]), "helper forwards its query to the scanner", c.Pos(pcall.Pos()), "Parse(q, raw)", "the query given to the scanner is not the helper's parameter")
+		s.Check(qR.is(pcall.Call.Args[0]), "helper forwards its query to the scanner", c.Pos(pcall.Pos()), "Parse(q, raw)", "the query given to the scanner is not the helper's parameter")
 		// gate: a rejecting return dominated by (firstToken & mask) == 0 and by !querySatisfied
 		gateTok, gateQ := false, false
 		for _, r := range core.Returns(f) {
@@ -274,10 +391,10 @@ var ruleTokenGate = &core.Rule{ID: "R09.4", Min: 5,
 					if bo, ok := cond.(*ssa.BinOp); ok && core.IsConstInt(bo.Y, 0) && ((bo.Op == token.EQL && val) || (bo.Op == token.NEQ && !val)) {
 						if and, ok := bo.X.(*ssa.BinOp); ok && and.Op == token.AND {
 							a, b := and.X, and.Y
-							if b == ssa.Value(f.Params[maskIdx]) {
+							if maskR.is(b) {
 								a, b = b, a
 							}
-							if ex, ok := b.(*ssa.Extract); ok && a == ssa.Value(f.Params[maskIdx]) && ex.Tuple == ssa.Value(pcall) && ex.Index == 2 {
+							if ex, ok := b.(*ssa.Extract); ok && maskR.is(a) && ex.Tuple == ssa.Value(pcall) && ex.Index == 2 {
 								gateTok = true
 							}
 						}
@@ -322,22 +439,17 @@ var ruleTokenGate = &core.Rule{ID: "R09.4", Min: 5,
 			if n.DetFn == nil {
 				continue
 			}
-			var call *ssa.Call
-			for _, ci := range core.Calls(n.DetFn) {
-				if ci.Common().StaticCallee() == f {
-					call, _ = ci.(*ssa.Call)
-				}
-			}
 			key := "detector of " + n.Name
-			if call == nil {
+			mv, fwd1, pos, okm0 := maskR.constOf(n)
+			qv, fwd2, _, okq0 := qR.constOf(n)
+			if !pos.IsValid() {
 				s.Bad(key, c.Pos(n.DetFn.Pos()), "a node of the JSON family does not use the JSON helper")
 				continue
 			}
-			mask, okm := core.ConstInt(call.Call.Args[maskIdx])
-			q, okq := core.ConstString(call.Call.Args[qIdx])
-			okArgs := call.Call.Args[0] == ssa.Value(n.DetFn.Params[0]) && call.Call.Args[1] == ssa.Value(n.DetFn.Params[1])
-			if !okm || !okq || !okArgs {
-				s.Bad(key, c.Pos(call.Pos()), "mask / query are not constants or (header, limit) are not forwarded unchanged")
+			mask, okm := mv.(int64)
+			q, okq := qv.(string)
+			if !okm0 || !okq0 || !okm || !okq || !fwd1 || !fwd2 {
+				s.Bad(key, c.Pos(pos), "mask / query are not constants or (header, limit) are not forwarded unchanged")
 				continue
 			}
 			wantMask := tObj
@@ -348,16 +460,20 @@ var ruleTokenGate = &core.Rule{ID: "R09.4", Min: 5,
 			if _, total := c.Memo["jsonQuerySel"]; total && !known {
 				known = true // the selection function yields no query for every other name
 			}
-			s.Check(mask == wantMask, key+": token mask", c.Pos(call.Pos()), fmt.Sprintf("mask %d", mask), fmt.Sprintf("token mask %d, expected %d (%s)", mask, wantMask, map[bool]string{true: "object or array", false: "object only"}[n == js]))
+			s.Check(mask == wantMask, key+": token mask", c.Pos(pos), fmt.Sprintf("mask %d", mask), fmt.Sprintf("token mask %d, expected %d (%s)", mask, wantMask, map[bool]string{true: "object or array", false: "object only"}[n == js]))
 			if n == js {
-				s.Check(known && len(qs) == 0, key+": no query", c.Pos(call.Pos()), "empty query "+q, "plain application/json is decided with a non-empty query")
+				s.Check(known && len(qs) == 0, key+": no query", c.Pos(pos), "empty query "+q, "plain application/json is decided with a non-empty query")
 			} else {
-				s.Check(known && len(qs) > 0, key+": own query", c.Pos(call.Pos()), "query "+q, "a JSON sub-type is decided with an empty or unknown query: every object would match")
+				s.Check(known && len(qs) > 0, key+": own query", c.Pos(pos), "query "+q, "a JSON sub-type is decided with an empty or unknown query: every object would match")
 			}
 		}
 		// the return of each detector is the helper's verdict
 		for _, n := range fam {
 			if n.DetFn == nil {
+				continue
+			}
+			if n.DetFn == f {
+				s.OK("detector of "+n.Name+" returns the helper's verdict", c.Pos(n.Pos), "the detector is the helper closure itself")
 				continue
 			}
 			for _, r := range core.Returns(n.DetFn) {
@@ -1081,22 +1197,15 @@ var ruleQueryTables = &core.Rule{ID: "R10.2", Min: 3,
 		qs := jsonQueries(c)
 		f, _ := jsonHelperFn(c)
 		tm := tree.Get(c)
-		qIdx := -1
-		for i, p := range f.Params {
-			if core.IsString(p.Type()) {
-				qIdx = i
-			}
-		}
+		qR, _ := helperRoles(f)
 		queryOf := func(mime, ext string) (string, *tree.Node) {
 			for _, n := range tm.Find(mime) {
-				if n.Ext != ext || n.DetFn == nil {
+				if n.Ext != ext || n.DetFn == nil || !qR.valid() {
 					continue
 				}
-				for _, ci := range core.Calls(n.DetFn) {
-					if ci.Common().StaticCallee() == f && qIdx >= 0 {
-						if q, ok := core.ConstString(ci.Common().Args[qIdx]); ok {
-							return q, n
-						}
+				if v, _, _, ok := qR.constOf(n); ok {
+					if q, isS := v.(string); isS {
+						return q, n
 					}
 				}
 			}
